@@ -42,6 +42,53 @@ def observe_midway(g, ops, p=0.3):
     return ops
 
 
+def decoy_for(g, kind, calls):
+    """another builder of the same kind, preferably one with the same total size but a different inner split:
+    whatever is remembered about it must not leak into the builder under test"""
+    r = g.r
+    plain = [c for c in calls if c["c"] != "probe"]
+    if kind == "compound":
+        adds = [c for c in plain if c["c"] == "add_packet"]
+        if len(adds) >= 2 and r.random() < 0.6:
+            # the same members in reverse order (paddings removed): same count, same total, other split
+            rev = []
+            for c in reversed(adds):
+                m = dict(c["v"])
+                m["calls"] = [x for x in m["calls"] if x["c"] != "padding"]
+                rev.append({"c": "add_packet", "v": m})
+            return "compound", [{"c": "new"}] + rev
+        return g.compound(n=len(adds))
+    if kind == "bye" and r.random() < 0.6:
+        # trade 4 bytes between the reason and the padding
+        out, done = [], False
+        for c in plain:
+            if c["c"] == "reason" and len(c["v"]) >= 5 and not done:
+                c = dict(c, v=c["v"][:-4] if all(b < 0x80 for b in c["v"][-5:]) else c["v"])
+                done = True
+            out.append(c)
+        pad = next((c["v"] for c in plain if c["c"] == "padding"), 0)
+        out = [c for c in out if c["c"] != "padding"] + [{"c": "padding", "v": min(252, pad + 4)}]
+        return "bye", out
+    if kind in ("tfb", "pfb") and plain[0]["fci"]["f"] == "nack" and len(plain[0]["fci"]["adds"]) >= 4 and r.random() < 0.6:
+        adds = sorted(set(plain[0]["fci"]["adds"]))
+        sib = list(adds)
+        i = r.randrange(1, len(sib) - 1)
+        sib[i] = (sib[i] + r.choice([1, 2, 17, 40])) % 65536        # same count, smallest and largest kept
+        return kind, [dict(plain[0], fci={"f": "nack", "adds": sib})] + plain[1:]
+    k, c = g.builder("fb" if kind in ("tfb", "pfb") else kind, small=True)
+    return k, c
+
+
+def unchecked_op(g, kind, calls):
+    """write_into_unchecked into exactly the announced size while another builder is sized in between; with
+    `fresh` the instance that writes was never sized itself (the size comes from a twin built from the same calls)"""
+    dk, dcalls = decoy_for(g, kind, calls)
+    o = {"op": "write_unchecked", "fill": g.r.choice([0, 1]), "decoy": {"kind": dk, "calls": [c for c in dcalls if c["c"] != "probe"]}}
+    if g.r.random() < 0.3:
+        o["fresh"] = True
+    return o
+
+
 def build_session(sid, kind, calls, lens=(0,), fills=(0,), rt=True, extra=(), g=None):
     ops = [reset(sid)] + calls_to_ops(kind, calls)
     if g is not None:
@@ -50,6 +97,8 @@ def build_session(sid, kind, calls, lens=(0,), fills=(0,), rt=True, extra=(), g=
     for rel in lens:
         for f in fills:
             ops.append({"op": "write_into", "rel": rel, "len": 64, "fill": f})
+    if g is not None and g.r.random() < 0.3:
+        ops.append(unchecked_op(g, kind, calls))
     if rt:
         # the last write must be a successful one for the round trip to see the image
         if lens[-1] < 0:
@@ -142,6 +191,8 @@ def c05(g, tier):
         k, calls = g.fb(hist=True, big=(g.r.random() < (0.01 if tier == "quick" else 0.03)))
         yield build_session(f"C05/rand/{i}", k, calls, g=g)
     yield from midsize_sessions(g, "C05/mid", ["nack", "fir"])
+    yield from nack_sibling_sessions(g, 60 if tier == "quick" else 2000, "C05/sib")
+    yield from big_sli_sessions(g, "C05/bigsli")
     # RPSI: every length x ignored bits
     maxlen = 20 if tier == "quick" else 300
     for n_ in range(0, maxlen + 1):
@@ -187,6 +238,7 @@ def c06(g, tier):
             ops.append({"op": "write_into", "rel": rel, "len": g.r.choice([0, 3, 64]), "fill": 0})
         yield ops
     yield from midsize_sessions(g, "C06/mid", ["sdes", "nack", "fir", "firbig", "sizes"], quick=("c06" if tier == "quick" else False))
+    yield from type0_sessions(g, "C06/type0")
     # standalone SDES item / chunk writers
     for i in range(300 if tier == "quick" else 5000):
         bad = g.r.random() < 0.1
@@ -217,6 +269,8 @@ def c07(g, tier):
 
 def c07_extra(g, tier):
     yield from midsize_sessions(g, "C07/mid", ["sdes", "nack", "fir", "sizes"])
+    yield from nack_sibling_sessions(g, 60 if tier == "quick" else 2000, "C07/sib")
+    yield from type0_sessions(g, "C07/type0")
 
 
 def c17(g, tier):
@@ -233,6 +287,11 @@ def c17(g, tier):
                 for f in (0, 1):
                     ops.append({"op": "write_into", "rel": rel, "len": g.r.choice([0, 5, 64]), "fill": f})
         yield ops
+    yield from type0_sessions(g, "C17/type0")
+    yield from reuse_sessions(g, 60 if tier == "quick" else 2000, "C17/reuse")
+    # an oversize APP (see D12) with padding: whatever n is reported, the n bytes must not depend on the prefill
+    yield [reset("C17/oversize")] + calls_to_ops("app", [{"c": "new", "ssrc": [0, 1], "name": [65]}, {"c": "data", "v": [], "big": {"rep": 7, "n": 262144}},
+                                                          {"c": "padding", "v": 8}]) + [{"op": "calc_size"}, {"op": "write_twice", "rel": 4, "len": 64}]
     for sess in midsize_sessions(g, "C17/mid", ["sdes", "nack", "fir"]):
         yield [o for o in sess if o["op"] not in ("parse", "write_into")] + [{"op": "write_twice", "rel": 5, "len": 64}]
     for i in range(200 if tier == "quick" else 3000):
@@ -340,7 +399,10 @@ def c20(g, tier):
             cut = r.randrange(1, len(calls))
             ops = ops[:1 + cut] + [{"op": "calc_size"}, {"op": "write_into", "rel": 0, "len": 64, "fill": 0}] + ops[1 + cut:]
         ops += wrap_ops(g, k)
-        ops += [{"op": "calc_size"}, {"op": "get_padding"}, {"op": "write_into", "rel": r.choice([0, 0, 2, -1]), "len": 64, "fill": 0}]
+        ops += [{"op": "calc_size"}, {"op": "get_padding"}]
+        if r.random() < 0.3 and not any(o.get("op") == "wrap" for o in ops):
+            ops.append(unchecked_op(g, k, calls))
+        ops += [{"op": "write_into", "rel": r.choice([0, 0, 2, -1]), "len": 64, "fill": 0}]
         yield ops
 
 
@@ -386,6 +448,130 @@ def midsize_sessions(g, sidp, what, quick=False):
             yield build_session(f"{sidp}/unksize/{tot}", "unk", [{"c": "new", "type": 99, "data": [], "big": {"rep": 4, "n": tot - 8}},
                                 {"c": "padding", "v": 4}], rt=True)
 
+
+
+def nack_sibling_sessions(g, n, sidp):
+    """two different NACK sets that agree on size, minimum, maximum and on the sum (or the xor) of their members,
+    built back to back: whatever one builder produced must not leak into the next"""
+    r = g.r
+    for i in range(n):
+        k = r.randrange(4, 9)
+        base = sorted(r.sample(range(1, 400), k))
+        a = list(base)
+        b = list(base)
+        x, y = r.sample(range(1, k - 1), 2) if k > 3 else (1, 2)
+        if r.random() < 0.5:
+            d = r.randrange(1, 8)
+            b[x] += d
+            b[y] -= d                       # same sum
+        else:
+            bit = 1 << r.randrange(0, 4)
+            b[x] ^= bit
+            b[y] ^= bit                     # same xor
+        b = sorted(set(v for v in b if 0 < v < 400))
+        if len(b) != len(a) or b == a or b[0] != a[0] or b[-1] != a[-1]:
+            continue
+        off = r.choice([0, 1000, 65000])
+        ops = [reset(f"{sidp}/{i}")]
+        for adds in (a, b, a):
+            calls = [{"c": "new", "fci": {"f": "nack", "adds": [(off + v) % 65536 for v in adds]}, "owned": r.random() < 0.5}]
+            ops += calls_to_ops("tfb", calls) + [{"op": "calc_size"}, {"op": "write_into", "rel": 0, "len": 64, "fill": 0},
+                                                 {"op": "parse", "kind": "tfb", "src": "image"}]
+        yield ops
+
+
+def big_sli_sessions(g, sidp):
+    for k in (16383, 16384, 16385, 20000):
+        adds = [[i % 8192, (i * 3) % 8192, i % 64] for i in range(k)]
+        yield build_session(f"{sidp}/{k}", "pfb", [{"c": "new", "fci": {"f": "sli", "adds": adds}, "owned": False}], rt=True)
+
+
+def type0_sessions(g, sidp):
+    """an item builder given type 0 (the list terminator): what is announced must still be what is written"""
+    for i, items in enumerate(([[0, [0x61, 0x62]]], [[1, [0x61]], [0, []], [2, [0x62, 0x63]]], [[0, [0x61] * 5], [8, [0x62]]])):
+        ch = {"ssrc": g.u32(), "adds": [{"owned": False, "item": [{"c": "new", "type": t, "value": v}]} for t, v in items]}
+        yield [reset(f"{sidp}/chunk/{i}")] + [{"op": "chunk_write", "chunk": ch, "len": L, "fill": f} for L in (0, 7, 8, 15, 16, 64) for f in (0, 1)]
+        yield [reset(f"{sidp}/sdes/{i}")] + calls_to_ops("sdes", [{"c": "new"}, {"c": "add_chunk", "v": ch}, {"c": "padding", "v": 4}]) + [
+            {"op": "calc_size"}, {"op": "write_twice", "rel": 3, "len": 64}, {"op": "write_into", "rel": -1, "len": 64, "fill": 1}]
+
+
+def many_chunks_sessions(g, sidp):
+    """SDES bodies with 31 and more chunks, well-formed up to a defect in the very last one"""
+    r = g.r
+    for n in (30, 31, 32, 33, 40):
+        for tail in ("ok", "overrun", "fill", "privprefix"):
+            body = []
+            for i in range(n - 1):
+                body += [0, 0, i + 1, 7, 1, 1, 0x41 + i % 26, 0]            # ssrc, CNAME of one byte, terminator
+            last = {"ok": [0, 0, 9, 9, 1, 1, 0x5a, 0], "overrun": [0, 0, 9, 9, 1, 9, 0x5a, 0], "fill": [0, 0, 9, 9, 1, 0, 0, 7],
+                    "privprefix": [0, 0, 9, 9, 8, 2, 5, 0x5a, 0, 0, 0, 0]}[tail]
+            body += last
+            b = hdr(2, False, n % 32, 202, (4 + len(body)) // 4 - 1) + body
+            yield [reset(f"{sidp}/{n}/{tail}"), {"op": "parse", "kind": "sdes", "b": b}, {"op": "parse_all", "b": b}]
+
+
+def reparse_sessions(g, n, sidp):
+    """a datagram is parsed, then a buffer of the SAME length (allocated right after the first was freed) with a
+    defect somewhere: nothing remembered from the first parse may decide the second"""
+    r = g.r
+    T = [[0x80, 203, 0, 0], [0x81, 203, 0, 1, 1, 2, 3, 4], [0x80, 201, 0, 1, 9, 9, 9, 9], [0x80, 77, 0, 1, 5, 6, 7, 8]]
+    for i in range(n):
+        k = r.choice([2, 3, 5, 16, 17, 20, 24, 40])
+        b = []
+        for _ in range(k):
+            b += r.choice(T)
+        bad = list(b)
+        tiles = tiles_of(b)
+        t = r.choice(tiles)
+        bad[t[0] + 3] = (bad[t[0] + 3] + r.choice([1, 2, 5])) % 256          # one length field changed in place
+        iterate = r.random() < 0.5
+        ops = [reset(f"{sidp}/{i}"), {"op": "cparse", "b": b}]
+        if iterate:
+            ops += [{"op": "cnext"}] * r.randrange(1, k + 2)
+        ops += [{"op": "cparse", "b": bad}] + [{"op": "cnext"}] * 3 + [{"op": "cparse", "b": b}, {"op": "cnext"}]
+        yield ops
+        # the same for the single-packet parsers
+        p1 = r.choice(T[1:])
+        p2 = list(p1)
+        p2[r.choice([0, 1, 3])] ^= r.choice([1, 0x40, 0x80])
+        yield [reset(f"{sidp}/pkt/{i}"), {"op": "parse_all", "b": p1}, {"op": "parse_all", "b": p2}, {"op": "parse_all", "b": p1}]
+
+
+def nack_pair_sessions(g, n, sidp):
+    r = g.r
+    for i in range(n):
+        def lst():
+            out = []
+            for _ in range(r.randrange(0, 4)):
+                pid = r.choice([0, 1, 100, 0xffef, 0xffff, r.randrange(65536)])
+                blp = r.choice([0, 1, 0x8000, 0xffff, r.randrange(65536)])
+                out += [pid >> 8, pid & 0xff, blp >> 8, blp & 0xff]
+            return out
+        yield [reset(f"{sidp}/{i}"), {"op": "nack_pair", "a": lst(), "b": lst()}, {"op": "nack_pair", "a": lst(), "b": lst()}]
+
+
+def reuse_sessions(g, n, sidp):
+    """the output buffer still holds a previously written packet (prefill mode 4): first a packet whose tail looks
+    like a padding trailer, then a padded packet of the same size written over it, and the same into a fresh buffer"""
+    r = g.r
+    for i in range(n):
+        p = r.choice([8, 12, 16, 252])
+        words = r.randrange(p // 4 + 1, p // 4 + 6)
+        data1 = [r.randrange(1, 256) for _ in range(4 * words - 4)] + [0, 0, 0, p]
+        data2 = [r.randrange(1, 256) for _ in range(4 * words - p)]
+        ssrc = g.u32()
+        ops = [reset(f"{sidp}/{i}")] + calls_to_ops("app", [{"c": "new", "ssrc": ssrc, "name": [65, 66]}, {"c": "data", "v": data1}]) + [
+            {"op": "calc_size"}, {"op": "write_into", "rel": 4, "len": 64, "fill": 1}]
+        ops += calls_to_ops("app", [{"c": "new", "ssrc": ssrc, "name": [67]}, {"c": "data", "v": data2}, {"c": "padding", "v": p}]) + [
+            {"op": "calc_size"}, {"op": "write_into", "rel": 4, "len": 64, "fill": 4}, {"op": "write_into", "rel": 4, "len": 64, "fill": 0},
+            {"op": "write_into", "rel": 4, "len": 64, "fill": 4}]
+        yield ops
+    # random builders written over whatever the previous write of the session left in the buffer
+    for i in range(n):
+        k1, c1 = g.builder(small=True)
+        k2, c2 = g.builder(k1 if k1 != "custom" else None, small=True)
+        yield [reset(f"{sidp}/rand/{i}")] + calls_to_ops(k1, c1) + [{"op": "calc_size"}, {"op": "write_into", "rel": 8, "len": 64, "fill": 1}] + \
+            calls_to_ops(k2, c2) + [{"op": "calc_size"}, {"op": "write_into", "rel": 8, "len": 64, "fill": 4}, {"op": "write_into", "rel": 8, "len": 64, "fill": 0}]
 
 def item_type_sweep(g, sidp):
     """every SDES item type with an empty, a one-byte and a three-byte value: parsed from bytes and built"""
@@ -448,6 +634,9 @@ def header_sweep(g, n, sidp):
             # a length field that aliases the right one if high bits are dropped or only part of it is read
             words = (words + r.choice([0x100, 0x4000, 0x8000, 0xc000, 0xff00])) & 0xffff
         body = g.bytes_(max(0, ln - 4))
+        if len(body) >= 4 and r.random() < 0.04:
+            body[0:4] = r.choice([[0x21, 0x12, 0xa4, 0x42], [0x52, 0x45, 0x4d, 0x42], [0x2a, 0x3b, 0x4c, 0x5d]])   # well-known 32-bit identifiers
+            v = r.choice([0, 0, 2])
         b = (hdr(v, p, cnt, pt, words) + body)[:ln] if ln >= 4 else hdr(v, p, cnt, pt, words)[:ln]
         if p and b:
             b[-1] = r.choice([0, 1, 4, 8, 12, 255, len(b) - mn if 0 <= len(b) - mn < 256 else 4, r.randrange(256)])
@@ -664,6 +853,11 @@ def big_inputs(g, sidp, count):
             b += [[0x80, 203, 0, 9], [1, 2], [0x80, 203, 0, 0, 0]][i // 2 % 3]     # the chain breaks at the very end
         tl = tiles_of_partial(b)
         yield [reset(f"{sidp}/tiles/{i}"), {"op": "cparse", "b": b, "hint": {"ok": tl[1], "tiles": tl[0]}}] + [{"op": "cnext"}] * 5
+    if count >= 2:
+        for nt in (65536, 65540):
+            b = [0x80, 203, 0, 0] * nt
+            tl = tiles_of_partial(b)
+            yield [reset(f"{sidp}/manytiles/{nt}"), {"op": "cparse", "b": b, "hint": {"ok": tl[1], "tiles": tl[0]}}] + [{"op": "cnext"}] * 6
     # few large tiles adding up to more than 64 KiB (no hint needed)
     b = []
     for j in range(5):
@@ -699,6 +893,9 @@ def c01(g, tier):
     yield from nack_many(g, "C01/many")
     yield from item_type_sweep(g, "C01/types")
     yield from concat_sessions(g, 100 if q else 3000, "C01/concat")
+    yield from many_chunks_sessions(g, "C01/chunks")
+    yield from reparse_sessions(g, 150 if q else 4000, "C01/reparse")
+    yield from nack_pair_sessions(g, 100 if q else 3000, "C01/npair")
 
 
 def c08(g, tier):
@@ -722,7 +919,7 @@ def fixed_layout_bodies(g, n, sidp):
         if kind in ("sr", "rr"):
             body = MINLEN[kind] - 4 + 24 * cnt
             if r.random() < 0.35:      # RFC 3550 6.4.1 / 6.4.2: profile-specific extensions follow the report blocks
-                body += 4 * r.choice([1, 2, 5, 6, 7, 12, 13, 30])
+                body += 4 * r.choice([1, 2, 5, 6, 7, 12, 13, 30, 69, 70, 243, 244, 300])
         elif kind == "bye":
             body = 4 * cnt + (0 if r.random() < 0.4 else 4 * r.randrange(1, 5))
         elif kind == "unknown":
@@ -762,6 +959,7 @@ def c10(g, tier):
         yield ops
     yield from midsize_sessions(g, "C10/mid", ["sdes"])
     yield from item_type_sweep(g, "C10/types")
+    yield from many_chunks_sessions(g, "C10/chunks")
     for i in range(3000 if q else 100000):
         nw = r.randrange(0, 7)
         body = [r.choice([0, 0, 0, 1, 2, 3, 8, 65, r.randrange(256)]) for _ in range(4 * nw)]
@@ -777,6 +975,7 @@ def c11(g, tier):
     yield from compound_bytes_sessions(g, 3000 if q else 80000, "C11/cb")
     yield from compound_image_sessions(g, 600 if q else 15000, "C11/ci")
     yield from big_inputs(g, "C11/big", 2 if q else 4)
+    yield from reparse_sessions(g, 300 if q else 8000, "C11/reparse")
 
 
 def c12(g, tier):
@@ -788,6 +987,7 @@ def c12(g, tier):
         yield build_session(f"C12/img/{i}", k, calls, rt=False, extra=[{"op": "parse_all", "src": "image"}])
     yield from concat_sessions(g, 300 if q else 8000, "C12/concat")
     yield from fci_sessions(g, 600 if q else 15000, "C12/fci", op="parse_all")
+    yield from reparse_sessions(g, 150 if q else 4000, "C12/reparse")
 
 
 def c13(g, tier):
@@ -799,7 +999,8 @@ def c13(g, tier):
         calls = [c for c in calls if c["c"] != "padding"]
         ps = pads if q else g.r.sample(pads, 8)
         yield build_session(f"C13/{i}", k, calls, rt=False,
-                            extra=[{"op": "parse_pad", "kind": k, "src": "image", "n": n} for n in ps])
+                            extra=[{"op": "parse_pad", "kind": k, "src": "image", "n": n} for n in ps]
+                            + [{"op": "parse_pad", "kind": "packet", "src": "image", "n": g.r.choice(pads)}])   # through the generic parser
     yield from c13_literals(g, tier)
 
 
@@ -824,6 +1025,10 @@ def c13_literals(g, tier):
     for dl in (0, 4, 8):
         b = hdr(2, False, 3, 204, (12 + dl) // 4 - 1) + [1, 2, 3, 4, 65, 66, 67, 0] + [r.randrange(256) for _ in range(dl)]
         yield [reset(f"C13/lit/app/{dl}")] + [{"op": "parse_pad", "kind": "app", "b": b, "n": n} for n in pads]
+    # padded totals that reach or cross a multiple of 64 KiB
+    for total, n in ((65532, 4), (65500, 100), (65284, 252), (131064, 252), (262140, 4)):
+        b = hdr(2, False, 5, 204, total // 4 - 1) + [1, 2, 3, 4, 65, 66, 67, 68] + [7] * (total - 12)
+        yield [reset(f"C13/lit/app64k/{total}"), {"op": "parse_pad", "kind": "app", "b": b, "n": n}]
     # long feedback packets (more than 1024 bytes) with padding
     for sess in midsize_sessions(g, "C13/mid", ["nack", "fir"]):
         kind = sess[1]["kind"]
@@ -834,6 +1039,11 @@ def c14(g, tier):
     q = tier == "quick"
     r = g.r
     yield from c14_big(g)
+    for nt in (65536, 65540):      # more members than a 16-bit counter holds
+        calls = [{"c": "new"}] + [{"c": "add_packet", "v": {"kind": "bye", "calls": [{"c": "new"}], "pb": False}}] * nt
+        b = [0x80, 203, 0, 0] * nt
+        tl = tiles_of_partial(b)
+        yield [reset(f"C14/manymembers/{nt}"), {"op": "cparse", "b": b, "hint": {"ok": tl[1], "tiles": tl[0]}}] + [{"op": "cnext"}] * 6
     for i in range(1200 if q else 30000):
         bad = None
         x = r.random()
@@ -842,7 +1052,10 @@ def c14(g, tier):
         elif x < 0.35:
             bad = "padding"
         k, calls = g.compound(bad=bad)
-        ops = observe_midway(g, [reset(f"C14/{i}")] + calls_to_ops(k, calls), 0.4) + [{"op": "calc_size"}, {"op": "get_padding"}, {"op": "write_into", "rel": r.choice([0, 0, 5]), "len": 64, "fill": 0}]
+        ops = observe_midway(g, [reset(f"C14/{i}")] + calls_to_ops(k, calls), 0.4) + [{"op": "calc_size"}, {"op": "get_padding"}]
+        if r.random() < 0.4:
+            ops.append(unchecked_op(g, "compound", calls))
+        ops.append({"op": "write_into", "rel": r.choice([0, 0, 5]), "len": 64, "fill": 0})
         ops.append({"op": "cparse", "src": "image"})
         ops += [{"op": "cnext"} for _ in range(len(calls) + 2 + 3 * sum(1 for c in calls[1:] if c.get("v", {}).get("kind") == "compound"))]
         yield ops
@@ -865,6 +1078,8 @@ def c15(g, tier):
     yield from nack_iter_sessions(g, 400 if q else 10000, "C15/nit")
     yield from midsize_sessions(g, "C15/mid", ["nack", "fir"])
     yield from nack_many(g, "C15/many")
+    yield from big_sli_sessions(g, "C15/bigsli")
+    yield from nack_pair_sessions(g, 300 if q else 8000, "C15/npair")
     # single-word sweeps
     r = g.r
     pids = [0, 1, 0x7fff, 0xffee, 0xffef, 0xfff0, 0xffff]
@@ -920,7 +1135,7 @@ def c19(g, tier):
     r = g.r
     ops = [reset("C19/check_padding")] + [{"op": "check_padding", "p": p} for p in range(256)]
     yield ops
-    for fam in range(6):
+    for fam in range(7):
         ops = [reset(f"C19/write_header/{fam}")]
         for p in (0, 1, 4, 255):
             for cnt in range(32):
@@ -935,9 +1150,9 @@ def c19(g, tier):
             ops.append({"op": "write_padding", "p": p, "len": p + extra, "fill": 1})
     yield ops
     # check_packet through the family's parsers on swept headers
-    FAM = [(242, 12), (199, 4), (207, 8), (0, 16), (255, 12), (192, 28)]
+    FAM = [(242, 12), (199, 4), (207, 8), (0, 16), (255, 12), (192, 28), (242, 20)]
     for i in range(3000 if q else 60000):
-        fam = r.randrange(6)
+        fam = r.randrange(7)
         pt, mn = FAM[fam]
         v = 2 if r.random() < 0.85 else r.choice([0, 1, 3])
         p = r.random() < 0.3
@@ -951,6 +1166,11 @@ def c19(g, tier):
         if p and b:
             b[-1] = r.choice([0, 4, 8, 1, r.randrange(256)])
         yield [reset(f"C19/check_packet/{i}"), {"op": "parse", "kind": "custom", "fam": fam, "b": b}]
+    for i in range(200 if q else 4000):
+        ln = r.choice([8, 12, 16, 20, 24])
+        b = hdr(2, False, r.randrange(32), 242, ln // 4 - 1) + g.bytes_(ln - 4)
+        order = r.choice([[0, 6], [6, 0], [0, 6, 0], [0, 0, 6]])
+        yield [reset(f"C19/sharedpt/{i}")] + [{"op": "parse", "kind": "custom", "fam": f, "b": b} for f in order]
     for i in range(300 if q else 5000):
         ln = r.randrange(8, 40)
         b = g.bytes_(ln)
